@@ -29,8 +29,22 @@ pub struct Optimizer<F>(core::marker::PhantomData<F>);
 
 impl<F: Field> Optimizer<F> {
     pub fn optimize(ops: Vec<Op<F>>) -> (Vec<Op<F>>, HashMap<WitnessId, WitnessId>) {
+        Self::optimize_with_inputs(ops, &[])
+    }
+
+    /// Same as [`Self::optimize`], with the witnesses that are set before execution and defined
+    /// by no op (private inputs). Fusion needs them to recognise backwards ops such as the
+    /// `rhs * q = lhs` encoding of `lhs / rhs` when `lhs` is a private input.
+    pub fn optimize_with_inputs(
+        ops: Vec<Op<F>>,
+        private_inputs: &[WitnessId],
+    ) -> (Vec<Op<F>>, HashMap<WitnessId, WitnessId>) {
         let (ops, rewrite) = Deduplicator::new().run(ops);
-        let ops = MulAddFusion::new(&ops).run(ops);
+        let predefined: Vec<WitnessId> = private_inputs
+            .iter()
+            .map(|id| id.resolve(&rewrite))
+            .collect();
+        let ops = MulAddFusion::with_predefined(&ops, &predefined).run(ops);
         (ops, rewrite)
     }
 }
